@@ -22,6 +22,7 @@ import (
 	"io/ioutil"
 	"net/http"
 	"net/url"
+	"regexp"
 	"strconv"
 	"strings"
 	"time"
@@ -232,10 +233,13 @@ func rawValue(q qparam) string {
 		}
 		return q.val
 	case "user-allocations":
+		if inv {
+			return "notapeer"
+		}
 		// list of peer indices, x<k> for undecodable entries
 		var out []string
 		for _, s := range strings.Split(q.val, ",") {
-			if strings.HasPrefix(s, "x") {
+			if strings.HasPrefix(s, "x") || s == "e" {
 				out = append(out, textOf(s))
 			} else {
 				n, _ := strconv.Atoi(s)
@@ -492,26 +496,22 @@ func (h *harness) exec(c reqCase) (string, error) {
 // fixExpiry: an op recorded while the request was in flight carries expiry token
 // x<unix> when it is not in a naming table; map it to f<9000+k> if it lies in the
 // window [from+d_k, to+d_k].
+var expiryRe = regexp.MustCompile(`/x(\d{8,})`)
+
 func fixExpiry(op string, w *expWindow) string {
-	i := strings.Index(op, "/x")
-	if i < 0 {
-		return op
-	}
-	j := i + 2
-	for j < len(op) && (op[j] >= '0' && op[j] <= '9' || op[j] == '-') {
-		j++
-	}
-	unix, err := strconv.ParseInt(op[i+2:j], 10, 64)
-	if err != nil {
-		return op
-	}
-	t := time.Unix(unix, 0)
-	for k, d := range w.durs {
-		if !t.Before(w.from.Add(d).Add(-time.Second)) && !t.After(w.to.Add(d).Add(time.Second)) {
-			return op[:i] + "/f" + strconv.Itoa(9000+k) + op[j:]
+	return expiryRe.ReplaceAllStringFunc(op, func(m string) string {
+		unix, err := strconv.ParseInt(m[2:], 10, 64)
+		if err != nil {
+			return m
 		}
-	}
-	return op
+		t := time.Unix(unix, 0)
+		for k, d := range w.durs {
+			if !t.Before(w.from.Add(d).Add(-time.Second)) && !t.After(w.to.Add(d).Add(time.Second)) {
+				return "/f" + strconv.Itoa(9000+k)
+			}
+		}
+		return m
+	})
 }
 
 // ---- generation ----
@@ -663,6 +663,10 @@ var typeNames = []string{"pin", "meta-pin", "clusterdag-pin", "shard-pin", "all"
 
 // optValue draws a value token for a pin option; class v or i.
 func optValue(r *common.Rng, key string, invalid bool) qparam {
+	if invalid && key == "user-allocations" {
+		// the option is a list: its undecodable values are lists with an undecodable entry
+		return qparam{key: key, class: 'v', val: []string{"x0", "1,x1", "x2,2,3", "1,e"}[r.Intn(4)]}
+	}
 	if invalid {
 		return qparam{key: key, class: 'i', val: strconv.Itoa(r.Intn(4))}
 	}
@@ -773,7 +777,11 @@ func genReq(r *common.Rng) reqCase {
 		// unclean path: an empty or dot segment somewhere
 		i := r.Intn(len(c.segs) + 1)
 		ins := []string{"e", "dot", "dotdot"}[weighted(r, 3, 1, 1)]
-		c.segs = append(c.segs[:i], append([]string{ins}, c.segs[i:]...)...)
+		if ins == "e" && i == len(c.segs) {
+			c.slash = true // an empty last segment IS a trailing slash
+		} else {
+			c.segs = append(c.segs[:i], append([]string{ins}, c.segs[i:]...)...)
+		}
 	}
 	if r.Chance(1, 30) {
 		c.pf = true
@@ -955,7 +963,7 @@ func sysCases() []reqCase {
 				qs = append(qs, optValue(r, k, false))
 			}
 			qs = append(qs, qparam{key: k, class: 'e'})
-			if k != "name" {
+			if k != "name" && k != "user-allocations" {
 				for v := 0; v < 4; v++ {
 					qs = append(qs, qparam{key: k, class: 'i', val: strconv.Itoa(v)})
 				}
